@@ -415,7 +415,9 @@ impl<T: Eq + Hash> FrequentItemsSketch<T> {
     where
         T: Clone, // for self.hash_map.active_keys()
     {
-        if self.is_empty() {
+        // Only a sketch that never saw data is written as the empty image: a sketch whose last
+        // purge removed every counter still carries stream weight and error offset.
+        if self.stream_weight == 0 {
             let mut bytes = SketchBytes::with_capacity(8);
             bytes.write_u8(PREAMBLE_LONGS_EMPTY);
             bytes.write_u8(SERIAL_VERSION);
